@@ -99,6 +99,26 @@ Unary(op, x) ==
     [] op = "coalesce_0" -> IF IsNull(x) THEN 0 ELSE x
     [] op \in UFNames -> IF IsNull(x) THEN NULL ELSE <<"uf", op, x>>
 
+\* methods over an exact fraction q = <<"q", n, d>> (d > 0); expression tag "uq": the argument is syntactically a "/".
+\* round is numpy's (half to even); deviation sql_round_half_away: SQL ROUND rounds halves away from zero
+QUnary(op, q, dev) ==
+  IF IsNull(q) THEN NULL ELSE
+  LET n == q[2] d == q[3] f == n \div d r2 == 2 * (n - f * d) IN
+  CASE op = "floor" -> f
+    [] op = "ceil" -> 0 - ((0 - n) \div d)
+    [] op = "round" -> IF r2 < d THEN f ELSE IF r2 > d THEN f + 1
+                       ELSE IF "sql_round_half_away" \in dev THEN (IF n >= 0 THEN f + 1 ELSE f)
+                       ELSE (IF f % 2 = 0 THEN f ELSE f + 1)
+    [] op = "as_int64" -> IF n >= 0 THEN n \div d ELSE 0 - ((0 - n) \div d)
+    [] op = "abs" -> <<"q", IF n < 0 THEN 0 - n ELSE n, d>>
+    [] op = "neg" -> <<"q", 0 - n, d>>
+    [] op = "sign" -> IF n < 0 THEN 0 - 1 ELSE IF n > 0 THEN 1 ELSE 0
+QOps == {"floor", "ceil", "round", "as_int64", "abs", "neg", "sign"}
+\* is_nan: the data model has one missing value, so is_nan = is_null (Pandas, SQL);
+\* deviation polars_is_nan_null: Polars answers missing for a missing operand
+\* deviation pg_is_nan_null_false: the PostgreSQL dialect writes CASE WHEN x IS NULL THEN FALSE ...
+IsNan(x, dev) == IF IsNull(x) THEN (IF "polars_is_nan_null" \in dev THEN NULL ELSE IF "pg_is_nan_null_false" \in dev THEN 0 ELSE 1) ELSE 0
+
 IfElse(c, a, b) == IF IsNull(c) THEN NULL ELSE IF c = 1 THEN a ELSE b
 Where(c, a, b)  == IF c = 1 THEN a ELSE b          \* where(NULL, a, b) = b
 
@@ -138,6 +158,8 @@ EvalE(e, row, dev) ==
     [] e[1] = "in" -> LET x == EvalE(e[2], row, dev)
                       IN IF IsNull(x) THEN (IF "null_cmp_false" \in dev THEN 0 ELSE NULL)
                          ELSE B(\E i \in 1..Len(e[3]) : e[3][i] = x)
+    [] e[1] = "uq" -> QUnary(e[2], EvalE(e[3], row, dev), dev)
+    [] e[1] = "nan" -> IsNan(EvalE(e[2], row, dev), dev)
 
 RECURSIVE DefinedE(_, _)
 DefinedE(e, row) ==
@@ -157,6 +179,8 @@ DefinedE(e, row) ==
                      /\ ~IsInf(EvalE(e[4], row, {})) /\ ~IsInf(EvalE(e[5], row, {}))
     [] e[1] = "in" -> DefinedE(e[2], row) /\ ~IsInf(EvalE(e[2], row, {}))
     [] e[1] \in {"cat", "trim", "mapv"} -> TRUE
+    [] e[1] = "uq" -> DefinedE(e[3], row)
+    [] e[1] = "nan" -> DefinedE(e[2], row)
 
 RECURSIVE ColsOfE(_)
 ColsOfE(e) ==
@@ -168,7 +192,8 @@ ColsOfE(e) ==
     [] e[1] = "t" -> ColsOfE(e[3]) \cup ColsOfE(e[4]) \cup ColsOfE(e[5])
     [] e[1] = "in" -> ColsOfE(e[2])
     [] e[1] = "cat" -> ColsOfE(e[2]) \cup ColsOfE(e[3])
-    [] e[1] \in {"trim", "mapv"} -> ColsOfE(e[2])
+    [] e[1] \in {"trim", "mapv", "nan"} -> ColsOfE(e[2])
+    [] e[1] = "uq" -> ColsOfE(e[3])
 
 \* does evaluating e on row compare a missing operand?  (applicability predicate of D14)
 RECURSIVE NullCmpIn(_, _)
@@ -182,6 +207,8 @@ NullCmpIn(e, row) ==
     [] e[1] = "t" -> NullCmpIn(e[3], row) \/ NullCmpIn(e[4], row) \/ NullCmpIn(e[5], row)
     [] e[1] = "in" -> NullCmpIn(e[2], row) \/ IsNull(EvalE(e[2], row, {}))
     [] e[1] \in {"cat", "trim", "mapv"} -> FALSE
+    [] e[1] = "uq" -> NullCmpIn(e[3], row)
+    [] e[1] = "nan" -> NullCmpIn(e[2], row)
 
 (***************************************************************************)
 (* Laws of the reference (checked by TLC over a value universe V)           *)
@@ -193,4 +220,13 @@ ValueLaws(V) ==
   /\ \A a, b \in {0, 1, NULL} : And3(a, b) = And3(b, a) /\ Or3(a, b) = Or3(b, a)
   /\ \A a, b \in {0, 1, NULL} : Not3(And3(a, b)) = Or3(Not3(a), Not3(b))
   /\ \A x, y \in V : Pick("coalesce", x, y, {}) = (IF x = NULL THEN y ELSE x)
+  \* fractions: floor <= round <= ceil, ceil - floor <= 1, round is even at exact halves, truncation lies between
+  /\ \A n \in V \ {NULL}, d \in {1, 2, 3, 4} :
+       LET q == Quot(n, d) f == QUnary("floor", q, {}) c == QUnary("ceil", q, {}) r == QUnary("round", q, {})
+           t == QUnary("as_int64", q, {}) a == QUnary("round", q, {"sql_round_half_away"}) IN
+       /\ f <= r /\ r <= c /\ c - f <= 1 /\ f * d <= n /\ n <= c * d
+       /\ (2 * n = (2 * f + 1) * d => r % 2 = 0)
+       /\ t = (IF n >= 0 THEN f ELSE c)
+       /\ (2 * n # (2 * f + 1) * d => a = r)
+       /\ QUnary("neg", QUnary("neg", q, {}), {}) = q
 =============================================================================
